@@ -10,6 +10,8 @@ import (
 	"encoding/binary"
 	"encoding/json"
 	"fmt"
+	"hash/adler32"
+	"hash/crc32"
 	"hash/fnv"
 	"os"
 	"os/exec"
@@ -852,4 +854,42 @@ func ColdReplayer() func(raw json.RawMessage) *Violation {
 		}
 		return ColdEval(cc.Kind, cc.Case)
 	}
+}
+
+// ---------------------------------------------------------------- colliding inputs
+
+// CollidingPairs searches n generated strings for pairs of DIFFERENT strings of equal length that collide
+// under a common 32-bit non-cryptographic hash (FNV-1a, FNV-1, CRC-32 IEEE, Adler-32): the inputs on which a
+// memo, an interning table or a cache keyed by such a hash - instead of by the value - returns somebody
+// else's entry. By the birthday bound a few hundred thousand candidates give a handful of pairs per hash.
+func CollidingPairs(gen func(i uint64) string, n int) [][2]string {
+	type key struct {
+		h    uint32
+		l    int
+		kind int
+	}
+	seen := map[key]string{}
+	var out [][2]string
+	per := map[int]int{}
+	for i := 0; i < n; i++ {
+		s := gen(uint64(i))
+		b := []byte(s)
+		h1 := fnv.New32a()
+		h1.Write(b)
+		h2 := fnv.New32()
+		h2.Write(b)
+		for kind, h := range []uint32{h1.Sum32(), h2.Sum32(), crc32.ChecksumIEEE(b), adler32.Checksum(b)} {
+			if per[kind] >= 6 {
+				continue
+			}
+			k := key{h, len(s), kind}
+			if prev, ok := seen[k]; ok && prev != s {
+				out = append(out, [2]string{prev, s})
+				per[kind]++
+				continue
+			}
+			seen[k] = s
+		}
+	}
+	return out
 }
